@@ -86,13 +86,28 @@ func (c *cfsCtl) settle() {
 // A call that does not return within the deadline is a deadlock.
 func (c *cfsCtl) runOp(f func()) {
 	done := make(chan struct{})
-	go func() { defer close(done); f() }()
+	go func() {
+		defer close(done)
+		defer func() {
+			if p := recover(); p != nil {
+				// a panic inside the filesystem: an observation no model explains; the history ends
+				c.events = append(c.events, `EOp (OStat "PANIC in the call") (VUnit)`)
+				c.desc = append(c.desc, fmt.Sprintf("PANIC: %v", p))
+				c.se.tag("panic")
+				c.dead = true
+			}
+		}()
+		f()
+	}()
 	var deferred [][]byte
 	deadline := time.Now().Add(10 * time.Second)
 	stable, lastN, lastW := 0, -1, -1
 	for {
 		select {
 		case <-done:
+			if c.dead {
+				return
+			}
 			c.settle()
 			for _, d := range deferred {
 				c.events = append(c.events, "ECompleteData "+cfsBytes(d))
